@@ -28,7 +28,7 @@ SPEC = {
     "pins": ["RowHistory", "HistoryWiring", "RandomRange"],
     "harness": "harness.c10",
     "technique": "Lean 4 theorems over the history machine (arbitrary op sequences; draws as oracle arguments) and over the unique-context machine built on the C12 UpdatableRandomRange theorems + pins regenerated from the AST of row_history.py / data_generator_runtime.py + op-for-op trace correspondence of real runs with recorded draws + direct oracle on emitted rows",
-    "level_text": "Machine-checked proof, for every op sequence of the RowHistory machine (saves under any nickname layout, picks with any draw in range, iteration resets, continuation re-saves): nickname-scope picks return a saved row carrying that nickname and table with the drawn ordinal, from the current window when one exists; table-scope picks do so whenever ids are saved densely (DenseTrace), table counters are monotone (fix 9826fcb), so without density a table pick is a row of the running iteration or an id reserved ahead but never an earlier row, re-saved just_once rows are never current, every persistent row of a history-backed table is re-saved exactly once after a continuation (fix 5da9efa) and that re-save cannot fail, and the ranges one unique context sees never trip an UpdatableRandomRange assertion; the unrestricted existence statement is still refuted by the D07 witness that the oracle reproduces on the real code; unique picks never repeat, stay in range, never fail while growing, use every target and then report exhaustion; the per-parent state rule re-creates the context exactly when the parent row changes.",
+    "level_text": "Machine-checked proof, for every op sequence of the RowHistory machine (saves under any nickname layout, picks with any draw in range, iteration resets, continuation re-saves): nickname-scope picks return a saved row carrying that nickname and table with the drawn ordinal, from the current window when one exists; table-scope picks do so whenever ids are saved densely (DenseTrace), table counters are monotone and independent of nicknames (fixes 9826fcb, 07a822a: no table-scope theorem carries a naming hypothesis), so without density a table pick is a row of the running iteration or an id reserved ahead but never an earlier row, re-saved just_once rows are never current, every persistent row of a history-backed table is re-saved exactly once after a continuation (fix 5da9efa) and that re-save cannot fail, and the ranges one unique context sees never trip an UpdatableRandomRange assertion; the unrestricted existence statement is still refuted by the D07 witness that the oracle reproduces on the real code; unique picks never repeat, stay in range, never fail while growing, use every target and then report exhaustion; the per-parent state rule re-creates the context exactly when the parent row changes.",
     "level_note": "Trusted: Lean kernel; py2lean; the harness wrappers and recorded draws; sqlite UNIQUE/SELECT semantics as modelled (first matching row); CPython int/dict. The model is tied to the code by pinned expressions/skeletons and by replaying every traced call of every generated run.",
     "assumptions": [
         "random.randint(a, b) returns an int in [a, b] (the scope theorems take lo <= draw <= hi as hypothesis; the harness forces both ends)",
@@ -242,6 +242,7 @@ class Tracer:
             return {"tc": {k: int(h.table_counters.get(k) or 0) for k in univ},
                     "nc": {k: int(h.nickname_counters.get(k, 0)) for k in univ},
                     "lc": {k: int(h.local_counters.get(k) or 0) for k in univ},
+                    "ln": {k: int((getattr(h, "local_nickname_counters", None) or {}).get(k, 0)) for k in univ},
                     "nrows": n}
 
         def init(h, table_counters, tables, nickmap):
@@ -789,7 +790,7 @@ class Gen:
     def recipe(self):
         rng = self.rng
         layout = rng.choice(["table", "nick", "multi", "forward", "nested", "just_once", "unique_counts",
-                             "unique_growth", "parent", "resave", "varying", "varying", "shared", "shared", "mixed", "mixed", "mixed"])
+                             "unique_growth", "parent", "resave", "varying", "varying", "shared", "shared", "hostile", "hostile", "mixed", "mixed", "mixed"])
         self.features.add("layout:" + layout)
         rec = []
         if layout == "table":
@@ -857,6 +858,33 @@ class Gen:
             rec.append(self.picker())
             if rng.random() < 0.4:
                 rec.insert(rng.randint(0, 1), self.picker(to=rng.choice(["T", "n"])))
+        elif layout == "hostile":
+            # hostile names, each referenced by random_reference under that very name:
+            #  other-table: a nickname spelled like ANOTHER table's name (C02/D57: the name is a table)
+            #  own-table:   a nickname equal to its own table's name
+            #  shared:      one nickname on templates of two tables (D02 territory)
+            kind = rng.choice(["other-table", "other-table", "own-table", "shared"])
+            self.features.add("hostile:" + kind)
+            if kind == "other-table":
+                first = [self.target("T", None, count=rng.randint(1, 3))]
+                second = [self.target("U", "T", count=rng.randint(1, 4))]
+                if rng.random() < 0.5:
+                    second[0]["fields"]["r0"] = {"random_reference": "T"}
+                order = first + second if rng.random() < 0.7 else second + first
+                rec.extend(order)
+                for _ in range(rng.randint(1, 2)):
+                    rec.append(self.picker(to=rng.choice(["T", "T", "U"]), unique=rng.random() < 0.3))
+            elif kind == "own-table":
+                rec.append(self.target("T", "T", count=rng.randint(1, 4)))
+                if rng.random() < 0.5:
+                    rec.append(self.target("T", rng.choice([None, "n"]), count=rng.randint(1, 2)))
+                for _ in range(rng.randint(1, 2)):
+                    rec.append(self.picker(to="T", unique=rng.random() < 0.3))
+            else:
+                rec.append(self.target("T", "n", count=rng.randint(1, 3)))
+                rec.append(self.target("U", "n", count=rng.randint(1, 3)))
+                for _ in range(rng.randint(1, 2)):
+                    rec.append(self.picker(to=rng.choice(["n", "T", "U"]), unique=rng.random() < 0.3))
         elif layout == "shared":
             # ONE piece of recipe text supplies the picker field to 2-3 templates: a macro (in the
             # recipe or in an included file), a YAML anchor/alias, a `<<:` merge key.  Each template
@@ -1022,6 +1050,10 @@ def common_compositions(k, rng):
 
 
 FIXED = [
+    # C02/D57 (fixed by 07a822a): a nickname spelled like another table's name; `random_reference: A` is a TABLE pick
+    {"recipe": '- object: A\n  fields:\n    tpl: 1\n- object: C\n  nickname: A\n  count: 3\n  fields:\n    tpl: 2\n    r:\n      random_reference: A\n', "parts": [2], "dseed": 7, "forced": ["lo", "hi", "hi", "hi", "hi", "hi"]},
+    # the C02/D57 recipe itself (picker fields renamed r1..r3: this harness keys picker specs by (table, field))
+    {"recipe": '- object: C\n  nickname: n3\n  count: 2\n  fields:\n    f0: 7\n    tpl: 1\n- object: A\n  nickname: n2\n  count: 1\n  fields:\n    f0: 1\n    f1:\n      reference: B\n    tpl: 2\n  friends:\n  - object: C\n    fields:\n      f0: 1\n      parent:\n        reference: A\n      r1:\n        random_reference: C\n  - object: C\n    count: 0\n    fields:\n      f0:\n        reference: C\n      f1:\n        reference: n3\n      parent:\n        reference: A\n    friends:\n    - object: C\n      count: 0\n- object: C\n  nickname: A\n  count: 2\n  fields:\n    r2:\n      random_reference: C\n    r3:\n      random_reference: A\n    tpl: 3\n- object: B\n  nickname: n3\n  count: 2\n  fields:\n    f0:\n      reference: n2\n    f1: 1\n    f2: x\n', "parts": [2], "dseed": 7},
     # C05's D48 scenario (fixed by 5da9efa): J(1) known by nickname, U(1) by table name: both must be re-saved
     {"recipe": "- object: T\n  nickname: n\n  just_once: true\n  fields:\n    tpl: 1\n- object: U\n  just_once: true\n  fields:\n    tpl: 2\n- object: P\n  fields:\n    r1:\n      random_reference: U\n    r2:\n      random_reference: n\n",
      "parts": [1, 2], "dseed": 3},
@@ -1081,7 +1113,7 @@ def run(ctx, rep, findings):
         "recipes built from layouts {target by table, by nickname, several templates feeding one table, "
         "forward-reserved ids, nested/friend placement (picker friend of target, target in wrapper, target as friend, "
         "picker nested, same-table nesting), just_once targets, unique with (targets, pickers) in 0..6 incl. "
-        "pickers = targets and targets + 1, unique with growth inside an iteration, unique per parent, varying number of new targets per iteration incl. zero (Tick-driven count formulas), re-save layouts, one field text shared by 2-3 templates through a macro / YAML alias / merge key / included file, mixed} x 1-4 "
+        "pickers = targets and targets + 1, unique with growth inside an iteration, unique per parent, varying number of new targets per iteration incl. zero (Tick-driven count formulas), re-save layouts, one field text shared by 2-3 templates through a macro / YAML alias / merge key / included file, hostile names (nickname = another table's name, = its own table, shared by two tables) referenced by that name, mixed} x 1-4 "
         "iterations x continuation compositions; every draw chosen by the harness (both ends forced 25% each). "
         "Non-trivial: at least one successful pick and >= 2 emitted rows. Distinct = distinct (recipe, parts, draw seed)."
     )
